@@ -120,3 +120,217 @@ def c08_scenario(definition, inputs, oracle, scheds):
                                 "ops": ops, "ops_other": base_ops, "step": len(ops) - 1})
                     break
     return out, finals
+
+
+def _case_oracle(sess):
+    from harness import progs
+    return progs.Oracle(sess.case_seed, sess.fam, per_task=True)
+
+
+def c08(sess):
+    """Order independence of the outcome (engine only; the session's own history is the model tie)."""
+    scheds = [11, 12, 13] if sess.fam.get("tier") != "thorough" else [11, 12, 13, 14, 15, 16, 17, 18]
+    vs, finals = c08_scenario(sess.definition, sess.inputs, _case_oracle(sess), scheds)
+    sess.rel_features = {"orders_distinct": len(set(repr([o for o in f[2] if o[0] == "event"]) for f in finals)),
+                         "succeeded": finals[0][1]["status"] == "succeeded",
+                         "records": len(finals[0][1]["records"])}
+    return vs
+
+
+def _held_checks(sm, what_held, statuses_held):
+    """No offers while held; transitional exactly while something is in flight."""
+    out = []
+    s = sm.s
+    prev = None
+    for i, (op, obs) in enumerate(s.trace):
+        if prev is not None:
+            sb = wf_status(prev)
+            if op[0] == "get_next" and sb in statuses_held and obs["result"]:
+                out.append({"what": "tasks offered while %s: %s" % (sb, [o["id"] for o in obs["result"]]),
+                            "step": i})
+        prev = obs
+    return out
+
+
+def c09(sess):
+    """Pause at sampled positions + resume at rest vs. the unpaused run of the same scenario."""
+    from harness import sim
+    oracle = _case_oracle(sess)
+    out = []
+    base = _mk_sim(sess.definition, sess.inputs, oracle, 7)
+    try:
+        base.run()
+        bf = base.final()
+        n_events = base.events
+    finally:
+        base.s.close()
+    positions = list(range(0, n_events + 1))
+    if sess.fam.get("tier") != "thorough" and len(positions) > 5:
+        step = max(1, len(positions) // 5)
+        positions = positions[::step][:5] + [positions[-1]]
+    feats = {"positions": len(positions), "resumed": 0, "paused_with_inflight": 0}
+    for k in positions:
+        tw = _mk_sim(sess.definition, sess.inputs, oracle, 7, controls={k: "pausing"})
+        try:
+            tw.run()
+            tf = tw.final()
+            ops = [op for op, _ in tw.s.trace]
+            out.extend(dict(v, ops=ops[: v["step"] + 1]) for v in _held_checks(tw, "paused", ("pausing", "paused")))
+            # paused exactly when the last in-flight action has reported
+            prev = None
+            for i, (op, obs) in enumerate(tw.s.trace):
+                if prev is not None and tw.s.tags[i] == "report" and wf_status(prev) == "pausing":
+                    infl = tw.s.inflight_log[i]
+                    sa = wf_status(obs)
+                    if infl:
+                        feats["paused_with_inflight"] += 1
+                    if not infl and sa == "pausing":
+                        out.append({"what": "still pausing although the last in-flight action has reported",
+                                    "step": i, "ops": ops[: i + 1]})
+                    if infl and sa == "paused":
+                        out.append({"what": "paused while %d action(s) are still in flight" % len(infl),
+                                    "step": i, "ops": ops[: i + 1]})
+                prev = obs
+            if tw.resumed and not tw.completed_by_request or tw.resumed:
+                feats["resumed"] += 1
+                known = "D5a" if trig_no_terminal(tw.s) else None
+                if tf["status"] != bf["status"]:
+                    v = {"what": "pause before event %d and resume changed the final status: %s (unpaused) vs %s"
+                                 % (k, bf["status"], tf["status"]), "step": len(ops) - 1, "ops": ops}
+                    if known:
+                        v["known"] = known
+                    out.append(v)
+                elif tf["status"] == "succeeded":
+                    for key in ("records", "output", "errors"):
+                        if tf[key] != bf[key]:
+                            v = {"what": "pause before event %d and resume changed %s: %r (unpaused) vs %r"
+                                         % (k, key, bf[key], tf[key]), "step": len(ops) - 1, "ops": ops}
+                            if known:
+                                v["known"] = known
+                            out.append(v)
+                            break
+        finally:
+            tw.s.close()
+    sess.rel_features = feats
+    return out
+
+
+def trig_no_terminal(s):
+    from harness import findings
+    return findings.trig_completed_without_terminal(s)
+
+
+def c10(sess):
+    """Cancel at sampled positions: no offers afterwards, canceling while in flight, canceled at the end,
+    never succeeded, output rendering keeps canceled and does not raise."""
+    oracle = _case_oracle(sess)
+    out = []
+    base = _mk_sim(sess.definition, sess.inputs, oracle, 7)
+    try:
+        base.run()
+        n_events = base.events
+    finally:
+        base.s.close()
+    positions = list(range(0, n_events + 1))
+    if sess.fam.get("tier") != "thorough" and len(positions) > 5:
+        step = max(1, len(positions) // 5)
+        positions = positions[::step][:5] + [positions[-1]]
+    feats = {"positions": len(positions), "canceled_with_inflight": 0, "accepted": 0}
+    for k in positions:
+        for req in (("canceling",) if k % 2 == 0 else ("canceled",)):
+            tw = _mk_sim(sess.definition, sess.inputs, oracle, 7, controls={k: req})
+            try:
+                tw.run()
+                ops = [op for op, _ in tw.s.trace]
+                accepted_at = None
+                for i, (op, obs) in enumerate(tw.s.trace):
+                    if op[0] == "request_status" and op[1] == req and obs["raised"] is None and i > 0:
+                        accepted_at = i
+                        break
+                if accepted_at is None:
+                    continue
+                feats["accepted"] += 1
+                failed_before = wf_status(tw.s.trace[accepted_at - 1][1]) == "failed"
+                prev = None
+                for i, (op, obs) in enumerate(tw.s.trace):
+                    if i >= accepted_at and not failed_before:
+                        sa = wf_status(obs)
+                        if op[0] == "get_next" and obs["result"] and sa != "failed":
+                            out.append({"what": "task offered after cancellation: %s" % [o["id"] for o in obs["result"]],
+                                        "step": i, "ops": ops[: i + 1]})
+                        if sa == "succeeded":
+                            out.append({"what": "canceled workflow ended succeeded", "step": i, "ops": ops[: i + 1]})
+                        if sa not in ("canceling", "canceled", "failed"):
+                            out.append({"what": "status %s after an accepted cancel" % sa, "step": i, "ops": ops[: i + 1]})
+                        infl = tw.s.inflight_log[i]
+                        if tw.s.tags[i] in ("report", "request"):
+                            if infl:
+                                feats["canceled_with_inflight"] += 1
+                            if infl and sa == "canceled":
+                                out.append({"what": "canceled while %d action(s) are still in flight" % len(infl),
+                                            "step": i, "ops": ops[: i + 1]})
+                            if not infl and sa == "canceling":
+                                out.append({"what": "still canceling although nothing is in flight", "step": i,
+                                            "ops": ops[: i + 1]})
+                        if op[0] == "render" and obs["raised"]:
+                            out.append({"what": "rendering the output of a canceled workflow raised %s" % obs["raised"],
+                                        "step": i, "ops": ops[: i + 1]})
+                    prev = obs
+                fin = tw.final()
+                if not failed_before and fin["status"] == "failed":
+                    # failed is acceptable only for a reason other than the cancellation itself
+                    errs = tw.s.trace[-1][1]["state"]["errors"]
+                    if any("UnreachableJoinError" in e.get("message", "") for e in errs):
+                        out.append({"what": "canceled workflow turned into failed by the unreachable-join check",
+                                    "step": len(ops) - 1, "ops": ops})
+                if fin["status"] == "canceled" and fin["output"] is None and sess.definition.get("output"):
+                    v = {"what": "canceled workflow rendered no output although output is defined (errors: %s)"
+                                 % [e.get("message", "")[:50] for e in tw.s.trace[-1][1]["state"]["errors"]][:2],
+                         "step": len(ops) - 1, "ops": ops}
+                    if trig_no_terminal(tw.s):
+                        v["known"] = "D5a"
+                    out.append(v)
+            finally:
+                tw.s.close()
+    sess.rel_features = feats
+    return out
+
+
+def _is_eval_error(msg):
+    return "EvaluationException" in msg or "VariableUndefinedError" in msg or "VariableInaccessibleError" in msg
+
+
+def c11(sess):
+    """Expression errors never escape; they are logged naming the task; the workflow fails (or stays canceled)."""
+    out = []
+    prev = None
+    if sess.model is not None and sess.model.nonexpr_errors:
+        stmt, cls, msg = sess.model.nonexpr_errors[0]
+        out.append({"what": "the evaluator failed with %s (not an ExpressionEvaluationException) on %r: the hypothesis of "
+                            "theorem C11_contained does not hold for the real evaluator" % (cls, stmt),
+                    "step": len(sess.trace) - 1})
+    for i, (op, obs) in enumerate(sess.trace):
+        r = obs["raised"]
+        # any exception class an evaluator call can produce (the evaluators wrap failures; an unwrapped
+        # StopIteration / ZeroDivisionError / RecursionError can only come out of an expression)
+        if r is not None and ("Evaluation" in r[0] or r[0] in ("VariableUndefinedError", "VariableInaccessibleError",
+                                                              "RecursionError", "StopIteration", "ZeroDivisionError")):
+            out.append({"what": "%s escaped %s: %s" % (r[0], op[0], r[1][:120]), "step": i})
+        if prev is not None:
+            old = set(engine.dumps_sorted(e) for e in prev["state"]["errors"])
+            new = [e for e in obs["state"]["errors"] if engine.dumps_sorted(e) not in old]
+            evs = [e for e in new if _is_eval_error(e.get("message", ""))]
+            if evs:
+                st = wf_status(obs)
+                if st not in ("failed", "canceled"):
+                    out.append({"what": "an expression error was logged (%s) but the workflow is %s"
+                                        % (evs[0]["message"][:80], st), "step": i})
+                if op[0] in ("event", "get_next") and any("task_id" not in e for e in evs):
+                    out.append({"what": "expression error logged without naming the task: %s"
+                                        % evs[0]["message"][:80], "step": i})
+            if wf_status(prev) in ("failed",) and op[0] == "get_next" and obs["result"]:
+                flagged = set((s["id"], s["route"]) for s in prev["state"]["state"]["staged"] if s.get("run_on_fail"))
+                if any((o["id"], o["route"]) not in flagged for o in obs["result"]):
+                    out.append({"what": "task offered after the workflow failed", "step": i})
+        prev = obs
+    return out
